@@ -1,6 +1,7 @@
 package main
 
 import (
+	"strconv"
 	"fmt"
 	"go/constant"
 	"go/token"
@@ -707,6 +708,19 @@ func runC22(c *Ctx) {
 			if st, ok := ins.(*ssa.Store); ok {
 				if _, isIA := st.Addr.(*ssa.IndexAddr); isIA {
 					if k, isC := constInt(st.Val); isC {
+						ks = append(ks, k)
+					}
+				}
+			}
+		}
+		// the same set written as a switch / chain of comparisons of the parameter with the hook constants
+		if len(ks) == 0 && len(f.Params) == 2 {
+			pn := canonName(f.Params[1], f.Params[1].Name())
+			seen := map[int64]bool{}
+			for _, blk := range f.Blocks {
+				if t, _, ok := condOf(blk); ok && strings.HasPrefix(t, pn+" == ") {
+					if k, err := strconv.ParseInt(strings.TrimPrefix(t, pn+" == "), 0, 64); err == nil && !seen[k] {
+						seen[k] = true
 						ks = append(ks, k)
 					}
 				}
